@@ -688,6 +688,7 @@ impl Program {
             used_qubits: HashSet::new(),
         };
         new_program.add_instructions(new_instructions);
+        new_program.rebuild_used_qubits();
         Ok(new_program)
     }
 
@@ -731,6 +732,7 @@ impl Program {
             used_qubits: HashSet::new(),
         };
         new_program.add_instructions(new_instructions);
+        new_program.rebuild_used_qubits();
         Ok((new_program, source_map))
     }
 
